@@ -377,7 +377,14 @@ fn prop(c: &Case) -> Verdict {
                         nontrivial = true;
                     }
                     Err(_) => nontrivial = true,
-                    Ok(None) => {}
+                    Ok(None) => {
+                        // if not a single line of a non-empty buffer reads as a record, every probe of the
+                        // search hits unparseable text: that must surface as an error, not as "absent"
+                        let view: &[u8] = buf.as_ref();
+                        if !view.is_empty() && plausible.is_empty() && !cands.is_empty() {
+                            return Verdict::fail("unparseable-not-reported", format!("{:?} -> none", name.as_bstr()));
+                        }
+                    }
                 }
             }
         }
@@ -528,7 +535,7 @@ fn neighbour(rng: &mut Rng, n: &[u8]) -> Vec<u8> {
 
 fn queries(rng: &mut Rng, recs: &[GenRec]) -> (Vec<u8>, Vec<Vec<u8>>) {
     let mut qs = Vec::new();
-    let k = rng.range(1, 6);
+    let k = rng.range(2, 8);
     for _ in 0..k {
         if !recs.is_empty() && rng.chance(3, 5) {
             let i = match rng.below(6) {
@@ -700,6 +707,25 @@ fn gen(rng: &mut Rng, n: usize) -> Vec<Case> {
     }
     // ---- random mixture
     while out.len() < n {
+        if rng.chance(1, 40) {
+            // nothing but unparseable lines behind a `sorted` header
+            let mut content = header_text(rng, true);
+            content.push(b'\n');
+            for _ in 0..rng.range(1, 6) {
+                let l: Vec<u8> = match rng.below(5) {
+                    0 => rng.word(b"0a /\r^#", 0, 50),
+                    1 => [&gen_hash(rng)[..39], b" refs/heads/a"].concat(),
+                    2 => [&gen_hash(rng)[..], b" refs/heads/a b"].concat(),
+                    3 => [b"^", &gen_hash(rng)[..]].concat(),
+                    _ => [&gen_hash(rng)[..], b"  refs/heads//a"].concat(),
+                };
+                content.extend_from_slice(&l);
+                content.push(b'\n');
+            }
+            let (prefix, qs) = queries(rng, &[]);
+            out.push(mk_case(content, rng.below(3), prefix, qs));
+            continue;
+        }
         let nrec = match rng.below(20) {
             0 => 0,
             1..=9 => rng.range(1, 8) as usize,
